@@ -37,10 +37,14 @@ func Intro() *app.Res {
 func MenuSink() *app.Res {
 	rs := app.NewRes()
 	rs.Funcs["bye"] = app.Static("bye")
+	rs.Funcs["note"] = app.Static("note")
 	rs.Node("root", "pick", app.Code().MSink().MNext("more", "8").MPrev("less", "9").
 		MOut("first", "1").MOut("second", "2").MOut("third", "3").MOut("fourth", "4").Halt().
-		InCmp(">", "8").InCmp("<", "9").InCmp("end", "1").InCmp("sub", "2").Bytes())
-	rs.Node("sub", "sub", app.Code().MOut("back", "0").Halt().InCmp("_", "0").Bytes())
+		InCmp(">", "8").InCmp("<", "9").InCmp("end", "1").InCmp("sub", "2").InCmp("fin", "3").Bytes())
+	// a node that loads a symbol one level down, and an end node that loads
+	// nothing: what the engine appends at the end is the last loaded value
+	rs.Node("sub", "sub {{.note}}", app.Code().Load("note", 8).Map("note").MOut("back", "0").Halt().InCmp("_", "0").Bytes())
+	rs.Node("fin", "fin", app.Code().Halt().Bytes())
 	rs.Node("end", "done {{.bye}}", app.Code().Load("bye", 8).Map("bye").Halt().Bytes())
 	rs.Node("_catch", "oops", app.Code().MOut("back", "0").Halt().InCmp("_", "*").Bytes())
 	return rs
